@@ -31,6 +31,9 @@ type GateScript struct {
 	MetaVer  string `json:"meta_ver"` // version written in _meta (Modern)
 	Info     bool   `json:"info"`     // _meta carries clientInfo (Modern)
 	RPC      string `json:"rpc"`      // tools/call | tools/list | prompts/get | resources/read
+	// EmptyID (stateful endpoint, modern probe): ServerOptions.GetSessionID returns "" - no Mcp-Session-Id is
+	// issued and every request gets its own session - which does not turn the endpoint into one that serves 2026-07-28.
+	EmptyID bool `json:"empty_id,omitempty"`
 
 	Local  string   `json:"local"`  // local address of the listener ("" = not exposed)
 	Host   string   `json:"host"`   // Host of the request
@@ -128,6 +131,7 @@ func genGates(rt *rapid.T) GateScript {
 		s.Endpoint = "stateful"
 	case "stateful-modern":
 		s.Endpoint, s.Modern = "stateful", true
+		s.EmptyID = rapid.Bool().Draw(rt, "empty_id")
 	case "stateful-get":
 		s.Endpoint, s.Verb = "stateful", "GET"
 	case "sse":
@@ -770,7 +774,12 @@ func parseAnswer(ct string, data []byte) (a rpcAnswer) {
 
 func runGatesInBubble(s GateScript) (res vt.Result) {
 	rec := newRecord()
-	server := mcp.NewServer(&mcp.Implementation{Name: "srv", Version: "1"}, nil)
+	var sopts *mcp.ServerOptions
+	if s.EmptyID {
+		sopts = &mcp.ServerOptions{GetSessionID: func() string { return "" }}
+		res.Class("stateful_endpoint_that_issues_no_session_id")
+	}
+	server := mcp.NewServer(&mcp.Implementation{Name: "srv", Version: "1"}, sopts)
 	server.AddReceivingMiddleware(rec.middleware)
 	server.AddTool(&mcp.Tool{Name: s.Tool, InputSchema: schemaOf(s.Nodes, true)}, rec.tool(s.Tool))
 	server.AddTool(&mcp.Tool{Name: otherTool, InputSchema: map[string]any{"type": "object"}}, rec.tool(otherTool))
